@@ -832,6 +832,17 @@ func (s *sink) handleReqClientErr(req *produceRequest, err error) {
 		} else {
 			s.cl.cfg.logger.Log(LogLevelDebug, "produce request failed with a retryable error, retrying without a metadata update", "broker", logID(s.nodeID), "err", err)
 		}
+		// Unless we know the request was never written, the broker
+		// may have appended these batches even though we never saw
+		// the response. As with REQUEST_TIMED_OUT in a response, we
+		// are unsure of the final state until a later attempt
+		// resolves it: a retryable error on the next attempt must
+		// not fail the records because they are at their limits.
+		if !errors.Is(err, errUnknownBroker) && !isDialNonTimeoutErr(err) {
+			req.batches.eachOwnerLocked(func(batch seqRecBatch) {
+				batch.unsureIfProduced = true
+			})
+		}
 		s.handleRetryBatches(req.batches, nil, req.backoffSeq, updateMeta, false, "failed produce request triggered metadata update")
 
 	case errors.Is(err, ErrClientClosed):
